@@ -2810,6 +2810,16 @@ class LinearOperator(object):
         # Pad the index with empty indices
         index = index + tuple(_noop_index for _ in range(ndimension - len(index)))
 
+        # Negative entries of integer tensor indices count from the end, as for torch.Tensor.
+        # (The structured _get_indices / _getitem implementations do arithmetic on the raw values;
+        # entries below -size are left alone so that they are still reported as out of range.)
+        index = tuple(
+            torch.where((idx < 0) & (idx >= -self.size(dim)), idx + self.size(dim), idx)
+            if torch.is_tensor(idx) and not idx.dtype.is_floating_point and idx.dtype != torch.bool
+            else idx
+            for dim, idx in enumerate(index)
+        )
+
         # Make the index a tuple again
         *batch_indices, row_index, col_index = index
 
